@@ -49,7 +49,7 @@ def _top_level_statements(body):
             i = e
             # a block that ends the statement: the statement starts with a block keyword (or is a bare block) and neither an
             # `else` nor the rest of an expression follows
-            if re.match(r"(?:if|for|while|loop|match|unsafe)\b|$", head) and not re.match(r"\s*(?:else\b|[.?;,)]|as\b|[-+*/|&=<>])", body[i:]):
+            if re.match(r"(?:if|for|while|loop|match|unsafe)\b|$", head) and not re.match(r"\s*(?:else\b|[.?;,)])", body[i:]):
                 res.append((start, i))
                 start = i
             continue
@@ -173,3 +173,16 @@ def inline_calls(body, scope, depth=2, skip=(), receivers=("self",)):
         pos = ce
     out.append(body[pos:])
     return "".join(out)
+
+
+def continue_to_if(loop_body):
+    """body of a loop: `if C { continue; } REST` (a top-level statement of the loop body, no else)  ->  `if !(C) { REST }`,
+    applied from the first such guard on"""
+    for (s, e) in _top_level_statements(loop_body):
+        st = loop_body[s:e].strip()
+        m = re.match(r"if\b(.*?)\{\s*continue\s*;\s*\}$", st, flags=re.S)
+        if not m or "{" in m.group(1):
+            continue
+        rest = continue_to_if(loop_body[e:])
+        return loop_body[:s] + " if !(" + m.group(1).strip() + ") {" + rest + "}"
+    return loop_body
